@@ -132,4 +132,52 @@ def Spec (f : Facts) (issuer clientID : String) (keys : List Key) (now : Int) (t
       | .wrongType => f.nbfTypeChecked = false) ∧
     asStr t.sub = some s ∧ s ≠ ""
 
+/-! ### the two halves of the verifier: the part in front of `JWT.Verify` (key selection, signature) and `JWT.Verify` itself.
+    `verifyStaged` is their sequence (`Oidc.Jwt.verifyStaged_eq`); the second half is what `tools/go2lean` translates from jwt.go. -/
+def sigStage (f : Facts) (keys : List Key) (t : Tok) : Except Reject Unit :=
+  if !t.parsed then .error .unparsable else
+  match asStr t.kid with
+  | none => .error .noKid
+  | some kid =>
+  match asStr t.alg with
+  | none => .error .noAlg
+  | some alg =>
+  match keys.find? (·.kid == kid) with
+  | none => .error .unknownKid
+  | some key =>
+  if key.fam = .unsupported then .error .keyType else
+  if !f.hashAlgs.contains alg then .error .algUnknown else
+  if familyOfAlg alg ≠ key.fam then .error .familyMismatch else
+  if !t.sigValid then .error .badSignature else .ok ()
+
+def subStage (t : Tok) : Except Reject Unit :=
+  match asStr t.sub with | none => .error .sub | some s => if s = "" then .error .sub else .ok ()
+
+def claimsStage (f : Facts) (issuer clientID : String) (now : Int) (t : Tok) : Except Reject Unit :=
+  match asStr t.alg with
+  | none => .error .noAlg
+  | some alg =>
+  if !f.supportedAlgs.contains alg then .error .algNotAllowed else
+  match asStr t.iss with
+  | none => .error .iss
+  | some iss =>
+  if iss ≠ issuer then .error .iss else
+  if !audOK clientID t.aud then .error .aud else
+  match asNum t.exp with
+  | none => .error .exp
+  | some e =>
+  if now > e + f.skewFuture then .error .exp else
+  match asNum t.iat with
+  | none => .error .iat
+  | some i =>
+  if now < i - f.skewPast then .error .iat else
+  match nbfClass t.nbf with
+  | .num n => if now < n - f.skewPast then .error .nbf else subStage t
+  | .wrongType => if f.nbfTypeChecked then .error .nbf else subStage t
+  | .absent => subStage t
+
+def isOk : Except Reject Unit → Bool
+  | .ok _ => true
+  | .error _ => false
+
 end Oidc.Jwt
